@@ -113,8 +113,14 @@ partial def hasAlias : Rule → Bool
 /-- the grammars whose table symbols carry the names the token-level semantics `DerivesTok` talks
 about: simple terminals, no aliases (a default alias renames a table symbol), no hidden terminal rules
 (their token carries the string's name), no non-terminal extras; for these a failing `relOK` is an alarm -/
-def relScope (g : Grammar) : Bool :=
+def relScope (g : Grammar) (tbl : Table) : Bool :=
   simpleTerminals g && !(g.rules.any fun e => hasAlias e.2) &&
+  -- a rule whose body is a single terminal but which is a NON-terminal of the table (the start rule, or
+  -- a literal shared by several rules) is read as a token by `DerivesTok`: outside its reading
+  !((List.range tbl.symbolCount).any fun y => y ≥ tbl.tokenCount &&
+      match g.body (tbl.symName y) with
+      | some b => isTerminalBody b
+      | none => false) &&
   !(g.rules.any fun e => isTerminalBody e.2 && g.hidden e.1) &&
   g.extras.all fun e => match e with
     | .sym x => match g.body x with
@@ -124,7 +130,9 @@ def relScope (g : Grammar) : Bool :=
 
 /-- search for the auxiliary-symbol assignment (untrusted: `relOK` checks the result) -/
 def findAux (g : Grammar) (tbl : Table) (prods : List (Nat × List Nat × Nat)) : AuxMap :=
-  let cands := (g.rules.flatMap fun e => repContents e.2)
+  let cands0 := (g.rules.flatMap fun e => repContents e.2)
+  -- smaller rules first (an inner repeat's content also matches inside the outer one's)
+  let cands := (cands0.toArray.qsort fun a b => (toString (repr a)).length < (toString (repr b)).length).toList
   let auxSyms := (List.range tbl.symbolCount).filter fun y =>
     y ≥ tbl.tokenCount && (g.body (tbl.symName y)).isNone
   let pass := fun (aux : AuxMap) =>
@@ -169,7 +177,7 @@ def onReady (s : GState) : GState × String :=
     let i := tbl.syms.getD t.sym default
     i.name == t.tok.name && t.sym < tbl.tokenCount
   ({ s with tbl := tbl, closed := closed, g := g, oracle := oracle, opOK := opOK, dynO := dynO },
-   s!"G {s.gid} kind={s.kind} closed={closed} rootsafe={rootSafe tbl} tablesafe={safe} rel={rel} relscope={relScope g} prods={nprods} badprod={badProd.replace " " "_"} states={tbl.stateCount} symbols={tbl.symbolCount} rules={g.rules.length} " ++
+   s!"G {s.gid} kind={s.kind} closed={closed} rootsafe={rootSafe tbl} tablesafe={safe} rel={rel} relscope={relScope g tbl} prods={nprods} badprod={badProd.replace " " "_"} states={tbl.stateCount} symbols={tbl.symbolCount} rules={g.rules.length} " ++
    s!"repconflict={suspiciousRepetitionCells tbl} simple={simple} oracle={oracle.isSome} dyn={dynO.isSome} L={s.exh} lang={langSize} fix={fix} opgrammar={opOK} terms={termsOK} nterm={s.terms.size}")
 
 def drvName : Outcome → String
